@@ -6,8 +6,10 @@
 EXTENDS TLC, Json, Integers
 VARIABLE x
 \* closed: the local stream has closed its channel but not yet deregistered it (the sender closes before its deferred removal)
+\* otherpair: the peer table holds streams to the owner, but only for ANOTHER (target, source) shard pair (stream = FALSE then
+\* means "no stream for this pair")
 Cases == {c \in [kind : {"msg", "ack"}, haveLocal : BOOLEAN, closed : BOOLEAN, owner : {"", "self", "b"}, addr : BOOLEAN,
-                 stream : BOOLEAN, memberlist : BOOLEAN] : c.closed => c.haveLocal}
+                 stream : BOOLEAN, otherpair : BOOLEAN, memberlist : BOOLEAN] : (c.closed => c.haveLocal) /\ (c.otherpair => ~c.stream)}
 Init == x = 0 /\ \A c \in Cases : PrintT(ToJson(c))
 Next == UNCHANGED x
 =============================================================================
